@@ -345,7 +345,7 @@ def run_shard(ctx):
             xt, pt = f"//{cname}", f"({cname} @v -> a)"
             check_xpath(xt, "reject", "late-class-before")
             check_pattern(pt, "reject", "late-class-before")
-            exec(compile(f"@dataclass(frozen=True)\nclass {cname}({P}Expr):\n    v: int = 0\n", "<c17 late>", "exec"), U.module.__dict__)
+            exec(compile(f"@dataclass(frozen=True)\nclass {cname}({P}Expr):\n    v: int = 0\n", "<c17 late>", "exec", dont_inherit=True), U.module.__dict__)
             ctx.count("late_defined_class")
             check_xpath(xt, "accept", "late-class-after")
             check_pattern(pt, "accept", "late-class-after")
